@@ -260,41 +260,89 @@ def _r2_products(run: Run, mod) -> None:
 
 
 def _r2_sort(run: Run) -> None:
+    """sort_with_sign touches its elements only through comparisons and equality, so its behaviour on sequences of at most three operands (the products have
+    at most three) is decided by evaluating it on every order pattern: all sequences over {0, 1, 2} of length 0..3, with and without a key."""
+    import itertools
+    from ..pyreader import PyReader, Raised
     m = run.src.need(MISC)
     fn = next((s for s in m.tree.body if isinstance(s, ast.FunctionDef) and s.name == "sort_with_sign"), None)
     if fn is None:
         raise AnalysisError("C14: sort_with_sign not found")
+
+    class R(PyReader):
+
+        def classes(self, v):
+            return {"list", "Sequence", "Iterable"} if isinstance(v, list) else ({"int"} if isinstance(v, int) else set())
+
+        def hook_call(self, n, env, fns):
+            name = (dotted(n.func) or "").split(".")[-1]
+            if name == "isinstance" and len(n.args) == 2:
+                return bool(self.classes(self.ev(n.args[0], env, fns)) & set(self.class_names(n.args[1])))
+            if name == "sorted" and len(n.args) == 1:
+                seq = self.ev(n.args[0], env, fns)
+                kf = next((self.ev(k.value, env, fns) for k in n.keywords if k.arg == "key"), None)
+                rev = next((self.ev(k.value, env, fns) for k in n.keywords if k.arg == "reverse"), False)
+                if isinstance(seq, list) and all(isinstance(x, int) for x in seq):
+                    keyf = (lambda x: x) if kf is None else (lambda x: self.apply_value(kf, [x], n, fns))
+                    return sorted(seq, key=keyf, reverse=bool(rev))
+                self.fail(n, "sorted() of a non-concrete sequence")
+            if name == "set" and len(n.args) == 1:
+                seq = self.ev(n.args[0], env, fns)
+                if isinstance(seq, list):
+                    return list(dict.fromkeys(seq))
+            if name == "Permutation" and len(n.args) == 1:
+                return ("permutation", list(self.ev(n.args[0], env, fns)))
+            if isinstance(n.func, ast.Name) and n.func.id in env and env[n.func.id] == "NEGATE" and len(n.args) == 1:
+                return -self.ev(n.args[0], env, fns)
+            return NotImplemented
+
+        def hook_method(self, base, attr, args, kwargs, n):
+            if isinstance(base, list) and attr == "index" and len(args) == 1:
+                if args[0] in base:
+                    return base.index(args[0])
+                raise Raised("ValueError", getattr(n, "lineno", 0))
+            if isinstance(base, list) and attr == "count" and len(args) == 1:
+                return base.count(args[0])
+            if isinstance(base, tuple) and base and base[0] == "permutation" and attr in ("signature", "parity") and not args:
+                p_ = base[1]
+                if sorted(p_) != list(range(len(p_))):
+                    raise Raised("ValueError", getattr(n, "lineno", 0))
+                inv = sum(1 for a_ in range(len(p_)) for b_ in range(a_ + 1, len(p_)) if p_[a_] > p_[b_])
+                return (1 if inv % 2 == 0 else -1) if attr == "signature" else inv % 2
+            return NotImplemented
+
+    def want(seq, neg):
+        keyed = [-x for x in seq] if neg else list(seq)
+        if len(set(keyed)) != len(keyed):
+            sign = 0
+        else:
+            order = sorted(range(len(seq)), key=lambda i_: keyed[i_])
+            inv = sum(1 for a_ in range(len(order)) for b_ in range(a_ + 1, len(order)) if order[a_] > order[b_])
+            sign = 1 if inv % 2 == 0 else -1
+        return sign, sorted(seq, key=(lambda x: -x) if neg else None)
+
+    bad = None
+    for ln in range(4):
+        for seq in itertools.product(range(3), repeat=ln):
+            for neg in (False, True):
+                run.ob("R2", f"sort_with_sign:{list(seq)}{':key' if neg else ''}", nontrivial=False)
+                rd = R(m.tree, "miscellaneous.py")
+                try:
+                    got = rd.call("sort_with_sign", [list(seq)] + (["NEGATE"] if neg else []))
+                except Raised as r:
+                    got = r
+                ws, wl = want(list(seq), neg)
+                ok = isinstance(got, list) and len(got) == 2 and got[0] == ws and isinstance(got[1], list) and (ws == 0 and sorted(got[1]) == sorted(wl) and
+                                                                                                             [(-x if neg else x) for x in got[1]] == sorted((-x if neg else x) for x in got[1])
+                                                                                                             or got[1] == wl)
+                if not ok and bad is None:
+                    bad = (list(seq), neg, got, (ws, wl))
     run.ob("R2", "sort_with_sign")
-    sign_defs = [s for s in ast.walk(fn) if isinstance(s, ast.Assign) and len(s.targets) == 1 and dotted(s.targets[0]) == "sign"]
-    zero = [s for s in sign_defs if isinstance(s.value, ast.Constant) and s.value.value == 0]
-    sig = [s for s in sign_defs if isinstance(s.value, ast.Call) and isinstance(s.value.func, ast.Attribute) and s.value.func.attr == "signature" and not s.value.args
-           and isinstance(s.value.func.value, ast.Call) and dotted(s.value.func.value.func) == "Permutation" and [dotted(a) for a in s.value.func.value.args] == ["indices"]]
-    ok = len(sign_defs) == 2 and len(zero) == 1 and len(sig) == 1
-    if ok:
-        # `sign = 0` exactly when the indices repeat
-        from ..flow import conditions_for
-        cz = conditions_for(fn, zero[0]) or []
-        cs = conditions_for(fn, sig[0]) or []
-        def rep(t):
-            return isinstance(t, ast.Compare) and isinstance(t.ops[0], ast.NotEq) and norm(t.left) == "len(set(indices))" and norm(t.comparators[0]) == "len(indices)"
-        ok = len(cz) == 1 and rep(cz[0][0]) and cz[0][1] is True and len(cs) == 1 and rep(cs[0][0]) and cs[0][1] is False
-    rets = [s for s in ast.walk(fn) if isinstance(s, ast.Return)]
-    ok = ok and len(rets) == 1 and isinstance(rets[0].value, ast.Tuple) and dotted(rets[0].value.elts[0]) == "sign"
-    # indices[i] = position, in the input, of the i-th element of the sorted output
-    idx_defs = [s for s in ast.walk(fn) if isinstance(s, ast.Assign) and dotted(s.targets[0]) == "indices"]
-    for d in idx_defs:
-        v = d.value
-        good = isinstance(v, ast.ListComp) and isinstance(v.elt, ast.Call) and isinstance(v.elt.func, ast.Attribute) and v.elt.func.attr == "index" \
-            and len(v.generators) == 1 and dotted(v.elt.args[0]) == dotted(v.generators[0].target)
-        if good:
-            src_old, src_new = dotted(v.elt.func.value), dotted(v.generators[0].iter)
-            sorted_defs = [s for s in ast.walk(fn) if isinstance(s, ast.Assign) and dotted(s.targets[0]) == src_new and isinstance(s.value, ast.Call)
-                           and dotted(s.value.func) == "sorted" and [dotted(a) for a in s.value.args] == [src_old] and not s.value.keywords]
-            good = len(sorted_defs) == 1
-        ok = ok and good
-    if not ok or len(idx_defs) < 1:
+    if bad is not None:
+        seq, neg, got, (ws, wl) = bad
         run.violate("R2", f"{MISC}:sort_with_sign:sign", m, fn,
-                    "sort_with_sign no longer returns Permutation(indices).signature() for distinct elements and 0 for repeated ones, with indices = positions of the sorted elements in the input")
+                    f"sort_with_sign({seq}{', key=negate' if neg else ''}) evaluates to {('raises ' + got.exc) if isinstance(got, Raised) else got!r}; the signature of the sorting permutation "
+                    f"(0 for repeated elements) and the sorted list are ({ws}, {wl})")
 
 
 def _r2_key(run: Run, mod) -> None:
